@@ -177,6 +177,9 @@ func runC13(c *runCtx, only string) {
 		}
 	}
 	c.rep.Extra["inputs_total"] = len(all)
+	if only == "" && c.shard == c.nshards-1 {
+		runOverload(c)
+	}
 	srv := NewServer(filepath.Join(c.scratch, "main"))
 	defer srv.Close()
 	if err := srv.Start(); err != nil {
